@@ -1,4 +1,107 @@
+<<<<<<< HEAD
 // c20.rs — temporary dispatcher until the unwind-context streams are merged (they live in the c06 branch).
 pub fn run(t: &[&str]) -> String {
     crate::reuse::run(t)
+=======
+// c20.rs — reused state behaves like fresh state.
+// Clause 1 (this section): one UnwindContext reused over a history of evaluations (successful,
+// failing in the CIE, mid-FDE, by StackFull / TooManyRegisterRules, abandoned tables, address
+// lookups) gives exactly the results fresh contexts give. Other clauses add their own streams
+// (match arms) below.
+use crate::c06::{at_on, parse_fdes, rows_on, section, S1x1, S2x3, S4x192, S8x256, SVec, R};
+use crate::util::*;
+use gimli::{BaseAddresses, DebugFrame, FrameDescriptionEntry, StoreOnHeap, UnwindContext, UnwindContextStorage};
+
+#[derive(Clone, Copy)]
+enum How {
+    All,
+    First(usize),
+    At(u64),
+}
+
+fn use_on<'a, S: UnwindContextStorage<usize> + PartialEq>(
+    df: &DebugFrame<R<'a>>,
+    bases: &BaseAddresses,
+    fde: &FrameDescriptionEntry<R<'a>>,
+    ctx: &mut UnwindContext<usize, S>,
+    how: How,
+) -> String {
+    match how {
+        How::All => rows_on(df, bases, fde, ctx, None, &[]),
+        How::First(k) => rows_on(df, bases, fde, ctx, Some(k), &[]),
+        How::At(a) => at_on(df, bases, fde, ctx, a),
+    }
+}
+
+/// results on ONE reused context, and on a fresh context per use
+fn history<'a, S: UnwindContextStorage<usize> + PartialEq>(
+    df: &DebugFrame<R<'a>>,
+    bases: &BaseAddresses,
+    fdes: &[FrameDescriptionEntry<R<'a>>],
+    uses: &[(usize, How)],
+) -> (Vec<String>, Vec<String>) {
+    let mut reused = Box::new(UnwindContext::<usize, S>::new_in());
+    let mut a = Vec::new();
+    let mut b = Vec::new();
+    for (i, how) in uses {
+        a.push(use_on(df, bases, &fdes[*i], &mut *reused, *how));
+    }
+    for (i, how) in uses {
+        let mut fresh = Box::new(UnwindContext::<usize, S>::new_in());
+        b.push(use_on(df, bases, &fdes[*i], &mut *fresh, *how));
+    }
+    (a, b)
+}
+
+pub fn run(t: &[&str]) -> String {
+    match t[0] {
+        // ---------------------------------------------------------------- unwind context
+        "c20.hist" | "c20.histm" => {
+            let bytes = hex(t[5]);
+            let df = section(&bytes, t[2], t[3], t[4]);
+            let bases = BaseAddresses::default();
+            let fdes = match parse_fdes(&df, &bases) {
+                Ok(v) => v,
+                Err(s) => return format!("bad-case {}", s),
+            };
+            let mut uses = Vec::new();
+            let mut k = 6;
+            while k + 2 < t.len() {
+                let idx: usize = t[k].parse().unwrap();
+                if idx >= fdes.len() {
+                    return "bad-case index".into();
+                }
+                let how = match t[k + 1] {
+                    "0" => How::All,
+                    "1" => How::First(t[k + 2].parse().unwrap()),
+                    _ => How::At(u(t[k + 2])),
+                };
+                uses.push((idx, how));
+                k += 3;
+            }
+            let (a, b) = match t[1] {
+                "0" => history::<StoreOnHeap>(&df, &bases, &fdes, &uses),
+                "1" => history::<S1x1>(&df, &bases, &fdes, &uses),
+                "2" => history::<S2x3>(&df, &bases, &fdes, &uses),
+                "3" => history::<S4x192>(&df, &bases, &fdes, &uses),
+                "4" => history::<S8x256>(&df, &bases, &fdes, &uses),
+                _ => history::<SVec>(&df, &bases, &fdes, &uses),
+            };
+            for i in 0..a.len() {
+                if a[i] != b[i] {
+                    return format!(
+                        "history-mismatch use={} fde={} reused=[{}] fresh=[{}]",
+                        i, uses[i].0, a[i], b[i]
+                    );
+                }
+            }
+            if t[0] == "c20.hist" {
+                format!("ok {}", a.len())
+            } else {
+                format!("ok {}", a.join(" || "))
+            }
+        }
+        _ => format!("unknown-stream {}", t[0]),
+    }
+>>>>>>> c06
 }
